@@ -141,6 +141,13 @@ def _install():
         scale = float(raug @ raug)
         consistent = objref <= 1e-18 * scale
         c["consistent"] = bool(consistent)
+        # for the lsq_linear back-end (normal equations + an exact Lagrange constraint, no extra unknown in the equations)
+        # "consistent" means that the force-balance equations themselves are solvable with non-negative tensions of mean one
+        if method == "lsq_linear":
+            Mfb = np.vstack([A, np.ones((1, n))])
+            zfb, _ = fb.nnls_ref(Mfb, raug)
+            consistent = fb.objective(Mfb, raug, zfb) <= 1e-18 * scale
+            c["consistent"] = bool(consistent)
         if not allow_neg:
             mon.count("kkt:checked")
             if x.min() < 0:
@@ -152,7 +159,7 @@ def _install():
                 if method == "lsq":
                     gap = obj - objref
                     # lmfit stops at relative parameter / cost changes of about 1e-7: absolute floor 1e-10 * |rhs|^2
-                    if gap > 1e-6 * objref + 1e-10 * scale:
+                    if gap > 1e-6 * objref + 1e-8 * scale:
                         mon.fail("not-optimal", "reported tensions (+ best multiplier) minimise the squared residual over "
                                  "non-negative candidates", gap=gap, obj=obj, objref=objref, path=rec["path"], method=method)
                 else:
@@ -163,8 +170,7 @@ def _install():
                     if method == "lsq_linear":
                         # scipy's trf works on the (squared) normal equations with tol=1e-10 on the cost; on rank-deficient
                         # systems it stops with a residual of up to ~0.3 % of |rhs| (thorough sweep, seed 2)
-                        full_rank = m + 1 >= n + 1 and np.linalg.matrix_rank(Maug) == n + 1
-                        gap_tol = 1e-6 * objref + (1e-8 if full_rank else 1e-5) * scale
+                        gap_tol = 1e-6 * objref + 1e-8 * scale
                     if not ok and gap > gap_tol:
                         mech = "not-optimal"
                         if rec["path"] == "inv" and rec["xres"][-1] < 0 and x.min() >= 0:
